@@ -34,6 +34,23 @@ type c09Case struct {
 	Data    hexutil.Bytes `json:"data,omitempty"`    // ref journal: the string content (valid encodings)
 	RawHead *common.Hash  `json:"raw_head,omitempty"` // ref journal: explicit (possibly invalid) head word instead of Data
 	Note    string        `json:"note"`
+	// Repeat > 1: the case is executed that many times in a row in one process and fails if any execution does (used
+	// for verdicts that depend on what the process executed before)
+	Repeat int `json:"repeat,omitempty"`
+}
+
+// c09RunRepeated executes the case c.Repeat times (at least once); the first failing verdict is returned.
+func c09RunRepeated(c *c09Case) (sig, detail string) {
+	n := c.Repeat
+	if n < 1 {
+		n = 1
+	}
+	for i := 0; i < n; i++ {
+		if s, d, _ := c09Run(c); s != "" && sig == "" {
+			sig, detail = s, fmt.Sprintf("%s\n(execution %d of %d consecutive executions of the same case in one process)", d, i+1, n)
+		}
+	}
+	return sig, detail
 }
 
 func hb(v *uint256.Int) *hexutil.Big { return (*hexutil.Big)(v.ToBig()) }
@@ -409,11 +426,28 @@ func init() {
 					w.Sample(c)
 				}
 				if sig != "" {
+					stable := true
 					for i := 0; i < 4; i++ {
 						if s2, _, _ := c09Run(c); s2 != sig {
-							w.Notes = append(w.Notes, "UNREPRODUCED: C09 violation did not reproduce: "+c.Note)
-							return
+							stable = false
 						}
+					}
+					if !stable {
+						// the verdict changes between executions of one case: either the harness is not deterministic or
+						// the outcome depends on what the process ran before. The second is itself a violation (the journaled
+						// value must equal the storage content, whatever ran before) provided it is reproducible as a history:
+						// the same case four times in a row must fail every time the group is run.
+						h := *c
+						h.Repeat = 4
+						for i := 0; i < 3; i++ {
+							if s2, _ := c09RunRepeated(&h); s2 == "" {
+								w.Notes = append(w.Notes, "UNREPRODUCED: C09 violation did not reproduce: "+c.Note)
+								return
+							}
+						}
+						s3, d3 := c09RunRepeated(&h)
+						w.Violate("history_dependent:"+s3, d3+"\n"+c.Note, &h)
+						return
 					}
 					w.Violate(sig, detail+"\n"+c.Note, c)
 				}
@@ -424,9 +458,12 @@ func init() {
 			if err := json.Unmarshal(raw, &c); err != nil {
 				panic(err)
 			}
-			sig, detail, _ := c09Run(&c)
+			sig, detail := c09RunRepeated(&c)
 			if sig == "" {
 				return nil
+			}
+			if c.Repeat > 1 {
+				sig = "history_dependent:" + sig
 			}
 			return []fw.Violation{{Sig: sig, Detail: detail, Case: raw}}
 		},
